@@ -462,7 +462,7 @@ fn t_bound_for(e: &EnumSpec) -> &'static str {
 }
 
 pub fn used_named(lit_s: &str, v: &VariantSpec) -> Vec<usize> {
-    let ph = crate::model::placeholders(lit_s);
+    let ph = crate::model::placeholder_args(lit_s);
     (0..v.fields.len()).filter(|&i| ph.iter().any(|p| Some(p) == v.fields[i].name.as_ref())).collect()
 }
 
